@@ -1,2 +1,136 @@
+(* Properties/C17.v — how a dataclass is written does not change its command line.
+   Only statements closed by `exact`, each followed by Print Assumptions.  Which runtime path each one covers:
+     C17_eval_render / C17_denote_render : every path (what Python builds from each spelling; what the spelling means)
+     C17_norm_*      : `from __future__ import annotations` + get_type_hints succeeds + top-level types.UnionType
+                       (get_field_type_from_annotations -> _replace_UnionType_with_typing_Union), the normal path on 3.10+
+     C17_resolve_* / C17_renderings_* : DataclassWrapper.__init__ / FieldWrapper.type for all four styles
+     C17_rewriter_*  : _get_old_style_annotation: the fallback of get_field_type_from_annotations (get_type_hints raised
+                       TypeError) and evaluate_string_annotation (serialization helpers); never on the normal parse path
+     C17_flatten_*   : dataclasses' field collection + _get_dataclass_fields + DataclassWrapper's filters *)
 From SPV Require Import Base.Str Model.Annot Model.AnnotSpec Gen.FactsAnnot Proofs.AnnotProofs.
-Example C17_nonvacuous : 1 = 1. Proof. reflexivity. Qed.
+Open Scope list_scope.
+
+(* ---------- spellings ---------- *)
+(* the runtime object Python builds from each spelling of a CLI-grammar type is the one written down in `rt` *)
+Theorem C17_eval_render : forall env sp c,
+  env_ok env = true -> wf_cty c = true -> eval env (render sp c) = Ok (rt sp c).
+Proof. exact eval_render. Qed.
+Print Assumptions C17_eval_render.
+
+(* all spellings of a type mean that type, and the type predicates see it in the object of every spelling *)
+Theorem C17_denote_render : forall sp c, wf_cty c = true -> denote (render sp c) = c /\ canon (rt sp c) = c.
+Proof. intros sp c H. split; [now apply denote_render|now apply canon_rt]. Qed.
+Print Assumptions C17_denote_render.
+
+(* ---------- (a) normalisation of the PEP 604 / builtin-generic runtime form ---------- *)
+Definition norm_statement (c : cty) : Prop :=
+  norm_gen (rt Sp604 c) = Ok (rt SpBuiltin c) /\ canon (rt SpBuiltin c) = canon (rt SpTyping c).
+
+(* full strength: false of the faithful model — Optional[Tuple[int, ...]] written `tuple[int, ...] | None` *)
+Theorem C17_norm_refuted : exists c, wf_cty c = true /\ ~ norm_statement c.
+Proof.
+  exists (CUnion [CTupleVar (CAtom "int"); CNone]). split; [reflexivity|].
+  intros [H _]. vm_compute in H. discriminate H.
+Qed.
+Print Assumptions C17_norm_refuted.
+
+Theorem C17_norm_partial : forall c, wf_cty c = true -> has_variadic c = false -> norm_statement c.
+Proof.
+  intros c Hw Hv. split; [now apply norm_rt604|]. now rewrite !canon_rt.
+Qed.
+Print Assumptions C17_norm_partial.
+
+(* ---------- the resolution pipeline of DataclassWrapper / FieldWrapper.type ---------- *)
+Definition resolve_statement (sp : spelling) (postponed initvar : bool) (c : cty) : Prop :=
+  exists r, resolve_gen postponed initvar (render sp c) = Ok r /\ canon r = c.
+
+Theorem C17_resolve_refuted : exists sp postponed initvar c, wf_cty c = true /\ ~ resolve_statement sp postponed initvar c.
+Proof.
+  exists Sp604, true, false, (CUnion [CTupleVar (CAtom "int"); CNone]). split; [reflexivity|].
+  intros [r [H _]]. vm_compute in H. discriminate H.
+Qed.
+Print Assumptions C17_resolve_refuted.
+
+Theorem C17_resolve_partial : forall sp postponed initvar c,
+  wf_cty c = true -> resolve_safe sp postponed initvar c = true -> resolve_statement sp postponed initvar c.
+Proof. exact resolve_render. Qed.
+Print Assumptions C17_resolve_partial.
+
+(* ---------- (b) the textual rewriter ---------- *)
+Definition rewriter_statement (t : texp) : Prop :=
+  exists s', old_style_gen (pr t) = Ok s' /\ exists t', parse s' = Some t' /\ denote t' = denote t.
+
+(* full strength: false — `list[int] | None` ends in the assertion (the source says so itself: "BUG: Need to handle
+   things like bob[int] | None") *)
+Theorem C17_rewriter_refuted : exists t, names_ok t = true /\ shape_ok t = true /\ ~ rewriter_statement t.
+Proof.
+  exists (TBar [TSub "list" [TName "int"]; TName "None"]). split; [reflexivity|]. split; [reflexivity|].
+  intros [s' [H _]]. vm_compute in H. discriminate H.
+Qed.
+Print Assumptions C17_rewriter_refuted.
+
+Theorem C17_rewriter_partial : forall t,
+  names_ok t = true -> shape_ok t = true -> rw_ok t = true -> rewriter_statement t.
+Proof. exact rewriter_partial_parse. Qed.
+Print Assumptions C17_rewriter_partial.
+
+(* the exact text it produces on the sub-grammar, and that the parser reads any printed annotation back *)
+Theorem C17_rewriter_text : forall t,
+  names_ok t = true -> shape_ok t = true -> rw_ok t = true -> old_style_gen (pr t) = Ok (pr (to_old t)).
+Proof. exact rewriter_partial. Qed.
+Print Assumptions C17_rewriter_text.
+
+Theorem C17_parse_print : forall t, names_ok t = true -> shape_ok t = true -> parse (pr t) = Some t.
+Proof. exact parse_pr. Qed.
+Print Assumptions C17_parse_print.
+
+(* ---------- (c) inheritance chains ---------- *)
+(* the last class of a chain has the fields of the flat class holding all declarations in order; this is the class the
+   spec reads off the chain (first position, last declaration); without re-declarations it is the concatenation *)
+Theorem C17_flatten : forall (chain : list (list (string * fdecl))),
+  chain_fields chain = chain_fields [List.concat chain]
+  /\ chain_fields chain = spec_flat chain
+  /\ map (fun kv => (fst kv, f_ty (snd kv))) (wrapper_fields_gen (chain_fields chain)) = spec_cli_fields (spec_flat chain).
+Proof.
+  intros chain. split; [apply chain_is_flat|]. split; [apply flat_meets_spec|].
+  rewrite wrapper_fields_spec. now rewrite flat_meets_spec.
+Qed.
+Print Assumptions C17_flatten.
+
+Theorem C17_flatten_split : forall (chain : list (list (string * fdecl))),
+  NoDup (map fst (List.concat chain)) -> chain_fields chain = List.concat chain.
+Proof. exact chain_split. Qed.
+Print Assumptions C17_flatten_split.
+
+(* ---------- all renderings of a class give the wrapper field list the class denotes ---------- *)
+Definition renderings_statement (sp : spelling) (postponed : bool) (chain : list (list (string * fdecl))) : Prop :=
+  field_types_gen sp postponed (chain_fields chain) = Ok (spec_cli_fields (spec_flat chain)).
+
+Theorem C17_renderings_refuted : exists sp postponed chain,
+  forallb (fun kv => wf_cty (f_ty (snd kv))) (chain_fields chain) = true /\ ~ renderings_statement sp postponed chain.
+Proof.
+  exists Sp604, true, [[("a", mkf (CUnion [CTupleVar (CAtom "int"); CNone]) KField true true)]].
+  split; [reflexivity|]. intros H. vm_compute in H. discriminate H.
+Qed.
+Print Assumptions C17_renderings_refuted.
+
+Theorem C17_renderings_partial : forall sp postponed chain,
+  forallb (decl_safe sp postponed) (chain_fields chain) = true -> renderings_statement sp postponed chain.
+Proof. exact chain_types_ok. Qed.
+Print Assumptions C17_renderings_partial.
+
+(* ---------- non-vacuity ---------- *)
+Example C17_nonvacuous :
+  let c := CUnion [CList (CUnion [CAtom "int"; CAtom "str"]); CTuple [CAtom "int"; CAtom "E"]; CNone] in
+  let t := TSub "dict" [TName "str"; TBar [TName "int"; TName "None"]] in
+  let chain := [[("a", mkf (CAtom "int") KField true true); ("b", mkf (CAtom "str") KField true true)];
+                [("iv", mkf c KInitVar true true); ("a", mkf c KField true true); ("h", mkf (CAtom "int") KField true false)]] in
+  wf_cty c = true /\ has_variadic c = false
+  /\ unchars (pr (render Sp604 c)) = "list[int | str] | tuple[int, E] | None"%string
+  /\ unchars (pr (render SpTyping c)) = "Optional[Union[List[Union[int, str]], Tuple[int, E]]]"%string
+  /\ norm_gen (rt Sp604 c) = Ok (rt SpBuiltin c)
+  /\ names_ok t = true /\ shape_ok t = true /\ rw_ok t = true /\ has_bar t = true
+  /\ option_map unchars (match old_style_gen (pr t) with Ok s => Some s | Err _ => None end) = Some "dict[str, Union[int, None]]"%string
+  /\ forallb (decl_safe Sp604 true) (chain_fields chain) = true
+  /\ field_types_gen Sp604 true (chain_fields chain) = Ok [("a", c); ("b", CAtom "str"); ("iv", c)].
+Proof. vm_compute. repeat split; reflexivity. Qed.
